@@ -52,6 +52,7 @@ func runC15(c *core.Ctx) {
 	c.CasesPar("group", c.N(600, 18000), 4, func(k *core.Case) { c15Run(k) })
 	// one at a time: the goroutine census must be attributable
 	c.Cases("closecensus", c.N(64, 2000), func(k *core.Case) { c15CloseCensus(k) })
+	c.CasesPar("watch", c.N(120, 4000), 4, func(k *core.Case) { c15Watch(k) })
 }
 
 func c15Run(k *core.Case) {
@@ -751,4 +752,208 @@ func c15CloseCensus(k *core.Case) {
 		c.Count("closecensus_generation_goroutines_seen_before_close", 1)
 	}
 	c.Distinct(fmt.Sprintf("closecensus %s watch=%v", placement, watch))
+}
+
+// c15Watch - the clause "the generation ends when a watched topic's partition count changes", also
+// after polls of the watcher that were answered with an error code: a group with
+// WatchPartitionChanges forms a generation whose only application function waits for its
+// cancellation; the watcher's polls (Metadata requests on the coordinator connection) are
+// answered with error codes or dropped according to a seeded script; once the watcher of the live
+// generation has read the old partition count the topic grows. Judged on (A, logical) how many
+// metadata answers carrying the new count were delivered before the function observed its
+// cancellation and (B, bounded progress) whether the function was cancelled at all.
+func c15Watch(k *core.Case) {
+	c := k.Ctx
+	r := k.R
+	net := fakenet.New()
+	cl := fakecluster.New(net)
+	defer cl.Close()
+	cl.AddBroker(1, "")
+	oldCount := r.Range(1, 3)
+	cl.AddTopic("t0", oldCount, nil)
+	interval := time.Duration(core.Pick(r, 2, 3, 5)) * time.Millisecond
+	type mfault struct {
+		n    int
+		act  string
+		code int16
+	}
+	var faults []mfault
+	// request 1 is the leader's read at join time, 2 the watcher's start-up read, 3.. its polls
+	for i := core.Pick(r, 0, 1, 1, 2, 3); i > 0; i-- {
+		f := mfault{n: r.Range(3, 9), act: "error", code: core.Pick(r, int16(5), int16(5), int16(6), int16(7), int16(9), int16(72))}
+		if r.Chance(1, 6) {
+			f.act = "drop"
+		}
+		faults = append(faults, f)
+	}
+	postFaults := core.Pick(r, 0, 0, 1, 2) // polls answered with an error code right after the growth
+	k.Describe(map[string]any{"list": "watch", "partitions": oldCount, "interval": interval.String(), "faults": fmt.Sprint(faults), "post_growth_errors": postFaults})
+	var metaN int32
+	var grown int32
+	var postLeft = int32(postFaults)
+	var firedKinds sync.Map
+	cl.Script = func(rc *fakecluster.ReqCtx) *fakecluster.Action {
+		if rc.Ev.API != fakecluster.KMetadata {
+			return nil
+		}
+		n := int(atomic.AddInt32(&metaN, 1))
+		if atomic.LoadInt32(&grown) == 1 {
+			if atomic.AddInt32(&postLeft, -1) >= 0 {
+				firedKinds.Store("post-growth-error", true)
+				return &fakecluster.Action{Kind: fakecluster.ActError, Code: 5}
+			}
+			return nil
+		}
+		for _, f := range faults {
+			if f.n == n {
+				firedKinds.Store(fmt.Sprintf("%s%d", f.act, f.code), true)
+				if f.act == "drop" {
+					return &fakecluster.Action{Kind: fakecluster.ActDropBefore}
+				}
+				return &fakecluster.Action{Kind: fakecluster.ActError, Code: f.code}
+			}
+		}
+		return nil
+	}
+	cg, err := kafka.NewConsumerGroup(kafka.ConsumerGroupConfig{
+		ID: "g", Brokers: []string{"b1:9092"}, Topics: []string{"t0"},
+		Dialer:            &kafka.Dialer{DialFunc: net.Dialer("cg"), ClientID: "cg", Timeout: 2 * time.Second},
+		HeartbeatInterval: 20 * time.Millisecond, SessionTimeout: 30 * time.Second, RebalanceTimeout: 300 * time.Millisecond, JoinGroupBackoff: 5 * time.Millisecond,
+		WatchPartitionChanges: true, PartitionWatchInterval: interval, Timeout: 2 * time.Second,
+	})
+	if err != nil {
+		panic(err)
+	}
+	var mu sync.Mutex
+	var fns []*c15Fn
+	ctx, cancel := context.WithCancel(context.Background())
+	appDone := make(chan struct{})
+	go func() {
+		defer close(appDone)
+		for {
+			gen, err := cg.Next(ctx)
+			if err != nil {
+				// failed joins are reported through Next and retried by the group
+				if ctx.Err() != nil || errors.Is(err, kafka.ErrGroupClosed) {
+					return
+				}
+				continue
+			}
+			f := &c15Fn{Gen: gen.ID, Kind: "on-cancel"}
+			mu.Lock()
+			fns = append(fns, f)
+			f.StartCall = core.Tick()
+			mu.Unlock()
+			gen.Start(func(ctx context.Context) {
+				mu.Lock()
+				f.Begin = core.Tick()
+				mu.Unlock()
+				<-ctx.Done()
+				mu.Lock()
+				f.DoneSeen = core.Tick()
+				f.End = f.DoneSeen
+				mu.Unlock()
+			})
+		}
+	}()
+	finish := func() {
+		cancel()
+		cg.Close()
+		select {
+		case <-appDone:
+		case <-time.After(10 * time.Second):
+		}
+	}
+	// wait until the watcher of a live generation has read the old count (its start-up read and one
+	// poll were answered after the function began), then let the topic grow
+	var target *c15Fn
+	deadline := time.Now().Add(6 * time.Second)
+	for target == nil && time.Now().Before(deadline) {
+		time.Sleep(500 * time.Microsecond)
+		mu.Lock()
+		var live *c15Fn
+		if len(fns) > 0 && fns[len(fns)-1].Begin != 0 && fns[len(fns)-1].DoneSeen == 0 {
+			live = fns[len(fns)-1]
+		}
+		var begin int64
+		if live != nil {
+			begin = live.Begin
+		}
+		mu.Unlock()
+		if live == nil {
+			continue
+		}
+		answered := 0
+		for _, ev := range cl.Journal() {
+			if ev.API == fakecluster.KMetadata && ev.Seq > begin && ev.Fate == fakecluster.FateServed && ev.Delivered() {
+				answered++
+			}
+		}
+		if answered >= 2 {
+			target = live
+		}
+	}
+	if target == nil {
+		finish()
+		tail := []string{}
+		j := cl.Journal()
+		for i := len(j) - 1; i >= 0 && len(tail) < 40; i-- {
+			tail = append(tail, fmt.Sprintf("%s:%s:%d", refcodec.APIs[j[i].API].Name, j[i].Fate, j[i].Code))
+		}
+		mu.Lock()
+		nf := len(fns)
+		mu.Unlock()
+		c.Inconclusive(fmt.Sprintf("%s: no generation with a running watcher within 6 s (%d functions started; last requests, newest first: %v)", k.ID, nf, tail))
+		return
+	}
+	newCount := oldCount + r.Range(1, 2)
+	cl.GrowTopic("t0", newCount-oldCount)
+	atomic.StoreInt32(&grown, 1)
+	growTick := core.Tick()
+	growWall := time.Now()
+	c.Eval(1)
+	// bounded progress: polls go out every few milliseconds; two seconds are several hundred of them
+	ended := false
+	for time.Since(growWall) < 2*time.Second {
+		mu.Lock()
+		ended = target.DoneSeen != 0
+		mu.Unlock()
+		if ended {
+			break
+		}
+		time.Sleep(time.Millisecond)
+	}
+	polls, seenNew := 0, 0
+	mu.Lock()
+	doneSeen := target.DoneSeen
+	mu.Unlock()
+	for _, ev := range cl.Journal() {
+		if ev.API != fakecluster.KMetadata || ev.Seq < growTick {
+			continue
+		}
+		if doneSeen != 0 && ev.Seq > doneSeen {
+			continue
+		}
+		polls++
+		if ev.Fate != fakecluster.FateServed || !ev.Delivered() || (doneSeen != 0 && ev.RespSeq > doneSeen) {
+			continue
+		}
+		for _, t := range refcodec.Arr(ev.Resp["Topics"]) {
+			tm := refcodec.Map(t)
+			if refcodec.Str(tm["Name"]) == "t0" && len(refcodec.Arr(tm["Partitions"])) == newCount {
+				seenNew++
+			}
+		}
+	}
+	kinds := []string{}
+	firedKinds.Range(func(key, _ any) bool { kinds = append(kinds, key.(string)); return true })
+	sort.Strings(kinds)
+	wit := map[string]any{"old_count": oldCount, "new_count": newCount, "faults_fired": kinds, "metadata_requests_after_growth": polls, "answers_with_new_count_delivered": seenNew, "generation": target.Gen}
+	if !ended {
+		k.TimeViol("c15:generation-alive-after-partition-change", fmt.Sprintf("the topic grew from %d to %d partitions while generation %d (WatchPartitionChanges, interval %s) was running; 2 s later its function's context was still not cancelled; %d metadata requests arrived after the growth, %d answers carrying the new count were delivered (faults answered before: %v)", oldCount, newCount, target.Gen, interval, polls, seenNew, kinds), wit)
+	} else if seenNew > 2 {
+		k.Viol("c15:partition-change-seen-generation-not-ended", fmt.Sprintf("%d metadata answers carrying the new partition count %d (was %d) were delivered to the watcher of generation %d before its function's context was cancelled", seenNew, newCount, oldCount, target.Gen), wit)
+	}
+	finish()
+	c.Distinct(fmt.Sprintf("watch faults=%s post=%d", strings.Join(kinds, ","), postFaults))
 }
